@@ -88,6 +88,41 @@ CHECKS["C09"] = dict(
          "application event repeated, list re-issued, and after fair completion both sides have key, verifier, versions and every send_message was delivered once.",
     note=_COMPOSED_NOTE + " Bounded liveness only (adversarial prefix + fair suffix).", ref="6/C09")
 
+_DIL_NOTE = ("in-memory network env/dilation.py (listen/connect recorded, byte pipes pumped by the schedule, whole or half chunks, loss of any link), ideal Noise "
+             "env/noise.py (noiseprotocol not installed), dilate-N messages carried FIFO per sender by a mailbox stand-in; checkpoints are the prefixes of one canonical "
+             "run per configuration (connect, converge, application traffic, loss of the selected link, re-convergence) + k free steps + fair completion.")
+CHECKS["C20"] = dict(
+    text="Real _hints.parse_hint/parse_tcp_v1_hint/encode_hint/endpoint_from_hint_obj and transit add_connection_hints + connect() contender construction run on hint "
+         "JSON whose every field (type, hostname, port, priority, hints, sub-hint fields) is a solver-chosen value of any JSON type or absent, plus non-object entries: "
+         "no exception escapes; z3 shows an endpoint is dialled only for hints with str hostname, int port and a supported type; pairs/triples of well-formed hints "
+         "with priorities of any type cover cross-entry sorting/hashing; hints of the shape this side produces are all dialled; parse(encode(h)) == h. The dilation "
+         "connection-hints message goes through the same parse_hint and Connector._use_hints (checked in c20_dilation).",
+    note="per-field value domains are representatives of each JSON type (listed in the evidence); no Tor; bool counts as int; endpoint classes replaced by recorders.",
+    ref="6/C20")
+CHECKS["C11"] = dict(
+    text="Manager.choose_role on two symbolic 16-hex-digit sides (z3: complementary roles and id parity unless equal, then both reject); two real Manager/Connector/"
+         "DilatedConnectionProtocol stacks under bounded symbolic schedules (control messages, connect completion/refusal, whole/half chunk delivery, loss of any link with the "
+         "proviso that one attempt of a generation survives, timers): complementary roles, at most one selected connection per side at every step, a follower only uses a "
+         "link the leader selected, CONNECTED/CONNECTED on one shared link after fair completion, no internal failure.",
+    note=_DIL_NOTE + " Bounded, checkpoint-relative claim (the weakest in the set).", ref="6/C11")
+CHECKS["C17"] = dict(
+    text="Two real dilation stacks, stop() on either side at any step of every canonical prefix + 2/3 arbitrary steps (all Manager states incl. FLUSHING/LONELY/ABANDONING, "
+         "pending eventual-turn callbacks): stop completes (when_stopped fires, which releases Terminator.stoppedD), no listener and no connection of the stopped side is "
+         "left, nothing logged; with a peer without dilation support every pending and future subchannel connect() fails with OldPeerCannotDilateError.",
+    note=_DIL_NOTE + " Terminator/Boss side of close() is C08.", ref="6/C17")
+CHECKS["C10"] = dict(
+    text="Inductive steps from symbolic pre-states (z3): Outbound.handle_ack on a queue with symbolic consecutive seqnums retires exactly the records <= ack; "
+         "Manager.got_record with symbolic seqnum/watermark always acks, dispatches iff new, watermark = max. Bounded symbolic schedules over two real dilation stacks "
+         "with link loss at record and mid-frame positions: per subchannel the peer's connectionMade/dataReceived*/connectionLost equal the opener's "
+         "connect/write*/loseConnection exactly once, in order, boundaries kept, both directions, also for writes issued while disconnected.",
+    note=_DIL_NOTE, ref="6/C10")
+CHECKS["C13"] = dict(
+    text="Bounded symbolic schedules over two real dilation stacks with early/late listen, both sides opening, listener closing, write-after-close, half-closeable vs "
+         "normal protocols, expected_subprotocols unset/['p0']/[]: each open surfaces once under the requested name, ids never collide (plus an inductive parity step on "
+         "a symbolic id counter), data before close precedes connectionLost, connectionLost once per side, write after close refused, an OPEN outside the declared set "
+         "is closed rather than held. One fixed defect and one known finding (half-closeable connectionLost).",
+    note=_DIL_NOTE, ref="6/C13")
+
 NOT_YET = {}
 
 NA = {}
